@@ -89,6 +89,8 @@ def _frame_origin(tb):
     belongs to the repository under test or to the harness."""
     last = None
     for fs in traceback.extract_tb(tb):
+        if not os.path.isabs(fs.filename):
+            continue            # e.g. 'numpy/random/mtrand.pyx'
         fn = os.path.abspath(fs.filename)
         if fn.startswith(REPO + os.sep):
             last = ('repo', '%s:%s' % (os.path.relpath(fn, REPO), fs.name))
